@@ -206,7 +206,8 @@ def subLit (v : Num) (l : Lit) : Num :=
 def encodeNumber (v : PyVal) (len : Nat) (signed : Bool) (res ofs : Lit) : Except EncErr Int :=
   match v with
   | .none =>
-    .ok (if len ≤ 3 then ((2 ^ len : Nat) - 1 : Int)
+    if len = 1 then .error .range      -- a 1-bit field has no "not available" value (fix a25c5ee)
+    else .ok (if len ≤ 3 then ((2 ^ len : Nat) - 1 : Int)
          else if signed then ((2 ^ (len - 1) : Nat) - 1 : Int) else ((2 ^ len : Nat) - 1 : Int))
   | .nan => .error .notFinite
   | .inf _ => .error .notFinite
